@@ -207,7 +207,7 @@ func scaleParts(sysName string, n int, seed int64) ([]wEvent, error) {
 	for i := 1; i <= n; i++ {
 		nums = append(nums, i)
 	}
-	nums = append(nums, 2500, 9999, 10000)
+	nums = append(nums, 2500, 4095, 4096, 4097, 8192, 9999, 10000)
 	for _, pn := range nums {
 		body := []byte(fmt.Sprintf("part %d", pn))
 		rp := newReq("PUT", "/bkt1/big")
